@@ -326,9 +326,22 @@ func runTermMon(t *testing.T, w0 *vt.Writer, s *c19Scenario) {
 	if !hasConfig {
 		close(cfgDone)
 	}
+	closeDone := make(chan struct{})
+	hasCloseHold := false
+	for _, st := range s.Steps {
+		if st.A == "closehold" {
+			hasCloseHold = true
+		}
+	}
+	if !hasCloseHold {
+		close(closeDone)
+	}
+	var held int32 // main is kept busy (configuration / closing listeners): pending senders are not going to be served now
 	go func() { // what main() does
 		defer close(monDone)
+		atomic.StoreInt32(&held, 1)
 		<-cfgDone
+		atomic.StoreInt32(&held, 0)
 		sig := m.wait(false)
 		name := "INT"
 		if sig == syscall.SIGTERM {
@@ -344,7 +357,11 @@ func runTermMon(t *testing.T, w0 *vt.Writer, s *c19Scenario) {
 			phmu.Unlock()
 			return
 		}
-		// (listeners would be closed here)
+		// (listeners are closed here: main is busy, not in any select) - a scenario with a "closehold" step keeps it
+		// here until its "closedone" step
+		atomic.StoreInt32(&held, 1)
+		<-closeDone
+		atomic.StoreInt32(&held, 0)
 		m.wait(true)
 		phmu.Lock()
 		phase = 3
@@ -359,9 +376,9 @@ func runTermMon(t *testing.T, w0 *vt.Writer, s *c19Scenario) {
 			phmu.Lock()
 			ph := phase
 			phmu.Unlock()
-			if get() == 0 || ph == 3 {
+			if get() == 0 || ph == 3 || atomic.LoadInt32(&held) == 1 {
 				time.Sleep(2 * time.Millisecond)
-				if get() == 0 || ph == 3 {
+				if get() == 0 || ph == 3 || atomic.LoadInt32(&held) == 1 {
 					return
 				}
 			}
@@ -398,6 +415,14 @@ func runTermMon(t *testing.T, w0 *vt.Writer, s *c19Scenario) {
 				default:
 					close(cfgDone)
 				}
+			}
+		case "closehold":
+			// (marker only: the monitor goroutine stops between wait(false) and wait(true))
+		case "closedone":
+			select {
+			case <-closeDone:
+			default:
+				close(closeDone)
 			}
 		case "ossig":
 			// a REAL signal, delivered by the kernel and the Go runtime to every channel registered with signal.Notify -
